@@ -69,8 +69,14 @@ impl Wake for CommandWaker {
         // nothing to do.
         // TODO: Does that mean we should bail, since waking ourselves is
         // now pointless?
+        #[cfg(feature = "verif")]
+        crate::verif::point("cw.before_send");
         let _ = self.ready_queue.send(self.task_id);
+        #[cfg(feature = "verif")]
+        crate::verif::point("cw.after_send");
         self.woken.store(true, Ordering::Release);
+        #[cfg(feature = "verif")]
+        crate::verif::point("cw.after_store");
 
         // Note: calling `wake` before `register` is a no-op
         self.parent_waker.wake();
@@ -185,6 +191,8 @@ impl<Effect, Event> Command<Effect, Event> {
     }
 
     pub(crate) fn run_task(&mut self, task_id: TaskId) -> TaskState {
+        #[cfg(feature = "verif")]
+        crate::verif::point("cmd.run_task");
         let Some(task) = self.tasks.get_mut(task_id.0) else {
             return TaskState::Missing;
         };
@@ -219,7 +227,11 @@ impl<Effect, Event> Command<Effect, Event> {
         //
         // Note that there is an exception: the task may have used the waker and dropped it,
         // making it ready, rather than abandoned.
+        #[cfg(feature = "verif")]
+        crate::verif::point("cmd.before_woken_load");
         let task_is_ready = arc_waker.woken.load(Ordering::Acquire);
+        #[cfg(feature = "verif")]
+        crate::verif::point("cmd.after_woken_load");
         if result == TaskState::Suspended && !task_is_ready && Arc::strong_count(&arc_waker) < 2 {
             return TaskState::Cancelled;
         }
@@ -239,5 +251,17 @@ impl<Effect, Event> Command<Effect, Event> {
 
     pub fn was_aborted(&self) -> bool {
         self.aborted.load(Ordering::Acquire)
+    }
+
+    /// Number of tasks currently held by this command (test-only instrumentation).
+    #[cfg(feature = "verif")]
+    pub fn verif_live_tasks(&self) -> usize {
+        self.tasks.len()
+    }
+
+    /// Number of spawned tasks not yet picked up by this command (test-only instrumentation).
+    #[cfg(feature = "verif")]
+    pub fn verif_pending_spawns(&self) -> usize {
+        self.spawn_queue.len()
     }
 }
